@@ -100,6 +100,19 @@ class Prop(BaseProp):
                         "proj/sub/", "proj/a.cmake", "loc1/proj/", "sub/e1.cmake", "./proj"]
                 for pat in rng.sample(pool, rng.randint(1, 3)):
                     common += ["-e", pat]
+                cands = sorted(os.path.basename(f) for f in tree.files if os.path.splitext(os.path.basename(f))[1] and os.path.splitext(os.path.basename(f))[0])
+                if cands and rng.random() < 0.4:
+                    # an overlapping pair whose order matters: a glob over file names, then the negation of one file it matches
+                    # (gitignore semantics: the later pattern wins) - the order given on the command line is the order applied.
+                    # (The glob ends in the file's extension: CMinx matches absolute paths, and a bare 'x*' would also match
+                    # components of the location the tree happens to stand in, which differs between the variants.)
+                    b_ = rng.choice(cands)
+                    pair = [b_[0] + "*" + os.path.splitext(b_)[1], "!" + b_]
+                    if rng.random() < 0.3:
+                        pair.reverse()
+                    for pat in pair:
+                        common += ["-e", pat]
+                    res.count("runs_with_an_order_sensitive_pattern_pair")
                 res.count("runs_with_exclude_patterns")
             if not single and not topless and rng.random() < 0.2:
                 if rng.random() < 0.6:
